@@ -215,7 +215,7 @@ def describe(ty: Ty) -> str:
     if k == 'pattern':
         return f"pattern<{ty.x.get('of')}>"
     if k == 'sub':
-        return f"sub<{ty.x['base']}>"
+        return f"sub<{ty.x['base']}{',picky' if ty.x.get('picky') else ''}>"
     if k in ('list', 'seq', 'deque', 'vol'):
         return f"{k}[{describe(ty.a[0])}]"
     if k == 'set':
@@ -291,7 +291,18 @@ _UNCACHED_SPELLINGS = {'list', 'abcMutableSequence', 'abcSequence', 'tuplevar', 
 
 def _mk_sub(ty):
     base = _SUB_BASES[ty.x['base']]
-    return type(f"My{base.__name__.title()}{next(_serial)}", (base,), {})
+    ns = {}
+    if ty.x.get('picky'):
+        # a subclass whose constructor refuses some well-typed values (a port number, a non-blank name)
+        def __new__(cls, v=0 if base is not str else ''):
+            if base is str:
+                if not v or ' ' in v:
+                    raise ValueError(f"picky: blank or spaced name {v!r}")
+            elif v != v or v < 0:
+                raise ValueError(f"picky: must be non-negative, got {v!r}")
+            return base.__new__(cls, v)
+        ns['__new__'] = __new__
+    return type(f"My{base.__name__.title()}{next(_serial)}", (base,), ns)
 
 
 _ENUM_BASES = {'plain': (enum.Enum,), 'strmix': (str, enum.Enum), 'StrEnum': (enum.StrEnum,), 'intmix': (int, enum.Enum),
